@@ -151,6 +151,12 @@ var coreKinds = []string{"json", "nop", "level-above-fatal", "sampler-drops-all"
 
 var inProcessOnly = map[string]bool{"tee-member-switched-on-after-child-derived": true, "multi(unsyncable-sink,buffered-sink)-after-an-earlier-terminal-entry": true}
 
+// intruderHook is the hook of a derived logger; it returns, so if the parent ran it the parent's call
+// would come back as if nothing terminal had happened.
+type intruderHook struct{}
+
+func (intruderHook) OnWrite(*zapcore.CheckedEntry, []zapcore.Field) {}
+
 type quietHook struct{}
 
 func (quietHook) OnWrite(*zapcore.CheckedEntry, []zapcore.Field) {}
@@ -499,9 +505,23 @@ func inProcess(r *ev.Run) {
 		if hk != nil {
 			opts = append(opts, zap.WithPanicHook(hk), zap.WithFatalHook(hk))
 		}
+		if ci%7 == 3 {
+			// caller annotation with a skip that points beyond the top of the stack: the caller cannot be
+			// found (that is reported), the entry is still written and still terminal
+			opts = append(opts, zap.AddCaller(), zap.AddCallerSkip(100000))
+			r.Count("cells_with_an_unresolvable_caller", 1)
+		}
 		lg := construct(route, b.core, c.dev, opts)
 		if b.derive != nil {
 			lg = b.derive(lg)
+		}
+		if ci%3 == 1 {
+			// a logger derived from this one is given terminal hooks of its own (that return): this
+			// logger's own action is what it was before
+			wrong := intruderHook{}
+			_ = lg.WithOptions(zap.WithPanicHook(wrong), zap.WithFatalHook(wrong))
+			_ = lg.Sugar().WithOptions(zap.WithFatalHook(wrong)).With("derived", true)
+			r.Count("cells_with_a_derived_logger_given_other_hooks", 1)
 		}
 		r.SetAdd("construction_routes", route)
 		msg := mkMsg(c.msg, fmt.Sprintf("final-%d", ci))
